@@ -158,7 +158,7 @@ template <class Gr> static bool runDijkstra(const Gr &g0, const std::string &ver
         auto res = algorithms::findGeodesicsDijkstra(g, s);
         std::string d; bool first = true;
         for (double x : res.first) { if (!first) d += " "; first = false; d += showW(x); }
-        body = "P dist: " + d + " | pred: " + joinSeq(res.second) + " | scans: " + std::to_string(g.log.size()) + showVE(g0) + "\n";
+        body = "P dist: " + d + " | pred: " + joinSeq(res.second) + " | scans: n=" + std::to_string(g.log.size()) + showVE(g0) + "\n";
         return std::string("ok");
     });
     // echo: the line the model replays, with the observed pop order as oracle
